@@ -1,5 +1,38 @@
-(* Eval01.v — evaluation of C01 observations (stub: replaced when C01 is built). *)
-From Verif Require Import Base Sexp.
+(* Eval01.v — evaluation of C01 observations: what goderive and the Go type checker say about a
+   type and a type-recursive plugin vs the model's support predicates. *)
+From Coq Require Import String.
+From Verif Require Import Base Sexp Go.Ty Go.Equal Go.Compare Go.CompareSpec Go.Hash Gen.Support.
 Open Scope string_scope.
 
-Definition eval01 (e : sexp) : verdict := bad_line.
+Definition plugin_sup (p : string) (t : ty) : option bool :=
+  if String.eqb p "equal" then Some (eq_sup [] Top t)
+  else if String.eqb p "compare" then Some (cmp_sup false t)
+  else if String.eqb p "hash" then Some (hash_sup t)
+  else if String.eqb p "deepcopy" then Some (dc_top t)
+  else if String.eqb p "clone" then Some (clone_sup t)
+  else if String.eqb p "gostring" then Some (gs_sup t)
+  else None.
+
+Definition eval01 (e : sexp) : verdict :=
+  match e with
+  | L [Sym k; Sym p; tys; Sym cls; Num vet] =>
+      if String.eqb k "gen" then
+        match parse_ty tys, option_map (fun f => f) (match parse_ty tys with Some t => plugin_sup p t | None => None end) with
+        | Some t, Some sup =>
+            let crash := (String.eqb cls "panic" || String.eqb cls "timeout")%bool in
+            let ok := (String.eqb cls "ok" && Z.eqb vet 1)%bool in
+            let generr := String.eqb cls "generator-error" in
+            (* supported: generated and type-checks; unsupported: reported as a generator error
+               (a crash, or exit 0 with a broken file, on an unsupported type is C09's subject) *)
+            {| v_known := true;
+               v_model_ok := if sup then (ok || crash || negb generr)%bool else (generr || crash || String.eqb cls "ok")%bool;
+               v_spec_ok := if sup then (ok || crash)%bool else true;
+               v_guard := sup;
+               v_model := Sym (if sup then "ok" else "generator-error");
+               v_tag := p ++ "/" ++ (if sup then "supported" else "unsupported") ++ "/" ++ cls
+                        ++ (if Z.eqb vet 1 then "" else if String.eqb cls "ok" then "/does-not-typecheck" else "") |}
+        | _, _ => bad_line
+        end
+      else bad_line
+  | _ => bad_line
+  end.
